@@ -359,6 +359,10 @@ class Check(PropCheck):
             except ValueError as e:
                 if root is None:
                     continue        # the documented "nothing parsed" error
+                if g != 'getHTML' and 'Cannot format' in str(e) and _buffered_only(obj):
+                    # the recorded finding's class, recognised by an independent scan: the serialisation consists only of
+                    # characters the (never closed) stdlib tokenizer keeps buffered, so the formatter sees no token at all
+                    return ('raises-buffered-only', '%s() after %r on %s raised ValueError: %s' % (g, text, d['cls'], e))
                 return ('raises', '%s() after %r on %s raised ValueError: %s' % (g, text, d['cls'], e))
             except DebuggerEntered:
                 return ('debugger', '%s() after %r dropped into pdb' % (g, text))
@@ -379,6 +383,16 @@ class Check(PropCheck):
                 if not isinstance(o, str):
                     return ('not-a-string', 'outerHTML of <%s> after %r is %s' % (e.tagName, text, type(o).__name__))
         return None
+
+
+def _buffered_only(obj):
+    """does a fresh stdlib tokenizer report no token that makes a node (only blank text, declarations) for getHTML() of this document?"""
+    try:
+        html = obj.getHTML()
+    except Exception:
+        return False
+    return isinstance(html, str) and all((t[0] == 'data' and not t[1].strip()) or t[0] in ('decl', 'udecl', 'pi')
+                                         for t in parsing.tokenize(html))
 
 
 def _worker_main(conn):
